@@ -1275,6 +1275,11 @@ def case_strategy():
                 op2 = draw(st.sampled_from(pv["ops"]))
                 lst2 = pv["by_op"][op2]
                 items.append(lst2[draw(st.integers(0, len(lst2) - 1))])
+        # Unique Batch Item IDs of the client's choosing (echoed in the answer): one byte as the
+        # harness numbers them, or whole multiples of the TTLV alignment (UUID-sized), or odd
+        nb = draw(st.sampled_from([None, None, None, 8, 16, 24, 5]))
+        if nb is not None:
+            items = [dict(it, bid=("%02x" % (k + 1)) * nb) for k, it in enumerate(items)]
         req = {"v": list(v), "items": items}
         if len(items) > 1 and draw(st.booleans()):
             req["cont"] = "CONTINUE"
